@@ -72,3 +72,20 @@ class OS:
 
     def __init__(self, exists=False):
         self.path = _Path(exists)
+
+
+def hybrid_io():
+    """module-like object: StringIO on a concrete str is the real io.StringIO (a C boundary is harmless on concrete
+    input), on a symbolic str the contract model above"""
+    import io as _io
+    import types
+    from .sym import is_concrete_str
+
+    def _StringIO(initial_value="", newline="\n"):
+        if is_concrete_str(initial_value):
+            return _io.StringIO(initial_value, newline)
+        return StringIO(initial_value, newline)
+
+    m = types.SimpleNamespace()
+    m.StringIO = _StringIO
+    return m
